@@ -335,8 +335,11 @@ def gen_step(model, rels: list[Relation], rng: random.Random, weights: dict[str,
                     continue
                 if SAME_RESOURCE_MOVES:
                     ff = model._loader.find_fragment
-                    if ff(src._element).parts[0] != ff(rel.owner._element).parts[0]:
-                        continue  # library resources are not written by save(): such a move cannot persist
+                    try:
+                        if ff(src._element).parts[0] != ff(rel.owner._element).parts[0]:
+                            continue  # library resources are not written by save(): such a move cannot persist
+                    except ValueError:
+                        continue  # a stale relation: its owner was deleted by an earlier step
                 x = src
             else:
                 cands = candidates_for(model, rel, rng)
